@@ -113,6 +113,13 @@ def cases(tier, seed):
                     c["name"] = f"GroupBy.{f} with up to {mt} threads per call == single thread/contiguous keys/N={Nt},G={G}/mask={R.mask_desc(mk)}/value columns={ncols}"
                     out.append(c)
     out.append({"kind": "tmax", "name": "largest thread count the public API can choose (probed from the real expressions)"})
+    # (e) whole factorization vs chunk-wise factorization through the sorted-prefix fast path and per-chunk dictionaries: the real constructor
+    # glue on enumerated keys (symbolic values) must give the per-key answer, i.e. what factorizing the key whole gives
+    Nk = 4 if tier == "quick" else 6
+    for first in ((1.0, 2.0) if tier == "quick" else (1.0, 2.0, 3.0, None)):
+        out.append({"kind": "chunked_constructor", "N": Nk, "alphabet": [1.0, 2.0, 3.0, float("nan")], "first": float("nan") if first is None else first,
+                    "sort": True, "max_chunks": 2, "funcs": ["sum", "first"],
+                    "name": f"GroupBy(chunked keys) == whole-key answer/N={Nk} over {{1,2,3,null}} starting with {first}/every 2-chunk layout/sort=True"})
     return out
 
 
@@ -123,6 +130,9 @@ def run_case(E, case):
         return run_chunked(E, case)
     if case["kind"] == "gb_threads":
         return run_gb_threads(E, case)
+    if case["kind"] == "chunked_constructor":
+        from . import constructor
+        return constructor.run_case(E, case, PROP)
     if case["kind"] == "tmax":
         t0 = time.time()
         tm, seen = t_max(E)
@@ -420,6 +430,9 @@ def replay(case, inputs, cand=None):
         return replay_chunked(case, inputs)
     if case["kind"] == "gb_threads":
         return replay_gb_threads(case, inputs)
+    if case["kind"] == "chunked_constructor":
+        from . import constructor
+        return constructor.replay(case, inputs, cand)
     raise Unsupported(case["kind"])
 
 
